@@ -91,6 +91,7 @@ def build(values, mapping):
 
 def cases(tier):
     yield {'dom': 'alias'}
+    yield {'dom': 'names'}
     total = len(order_requests())
     for lo in range(0, total, 100):
         yield {'dom': 'order', 'lo': lo, 'hi': min(total, lo + 100)}
@@ -190,6 +191,40 @@ def run_order(res, case):
     res.outcome = 'order'
     res.sample = {'requests': ['%s-%s' % r for r in reqs[0]],
                   'x': ORDER_DATA[0][0], 'y': ORDER_DATA[0][1]}
+
+
+def run_names(res, case):
+    """the name of the summarised variable is just a name: data kept under
+    item, key, index, count, n, var ... give the statistics the same data
+    give under x (which the other families judge against exact values)"""
+    from DocumentTemplate import HTML
+    n = 0
+    for name in ('item', 'key', 'index', 'count', 'n', 'var', 'number',
+                 'mean', 'x_y'):
+        body = '|'.join('<dtml-var %s-%s>' % (s, name) for s in STATS)
+        for mapping in (0, 1):
+            t = HTML('<dtml-in seq%s><dtml-if sequence-end>%s</dtml-if>'
+                     '</dtml-in>' % (' mapping' if mapping else '', body))
+            for values in ([3, 5], [1, 2, 3, 7], [2.5, 0.5, None], [4],
+                           ['a', 'c', 'b'], ['MISSING', 2, 8]):
+                seq = build(values, mapping)
+                for e in seq:
+                    d = e if mapping else e.__dict__
+                    if 'x' in d:
+                        d[name] = d.pop('x')
+                n += 1
+                try:
+                    got = t(seq=seq)
+                except Exception as e:
+                    got = 'raised %r' % (e,)
+                want = render(values, mapping)
+                if got != want:
+                    res.violate('variable-name', 'name:%s' % name,
+                                {'values': values, 'mapping': mapping,
+                                 'name': name, 'got': got,
+                                 'same_data_as_x': want}, {'dom': 'names'})
+    res.evals = res.nt_count = n
+    res.outcome = 'names'
 
 
 def run_alias(res, case):
@@ -370,6 +405,9 @@ def run(case):
         return res
     if case.get('dom') == 'order':
         run_order(res, case)
+        return res
+    if case.get('dom') == 'names':
+        run_names(res, case)
         return res
     if case.get('kind') == 'one':
         judge(res, case['values'], case['mapping'],
